@@ -38,5 +38,5 @@ ASSUMPTIONS = ["assumed contracts of the replaced callees (stubs/bign_env.c): bi
                "security level / operand size concrete per group; deterministic-signing model: at most three belt-wbl rounds"]
 TRUSTED = ["stubs/bign_env.c", "harness/ref.h"]
 NOT_COVERED = ["the algebra below the stubs: group law, field arithmetic, belt-hash, belt-wbl / KWP (C05, C01 and C06 territory)",
-               "bignSign2 / bignIdSign2 flow contract: written, no solver answer (attempted only); bignKeyWrap / bignKeyUnwrap / bignIdExtract / bignIdSign / bignIdVerify: native search only",
+               "bign96Sign2: native search only",
                "g12s, dstu, pfok: native search only"]
